@@ -673,6 +673,8 @@ pub fn float_weights(f32_: bool, n: usize) -> BoxedStrategy<Vec<i128>> {
             w
         }),
         1 => proptest::collection::vec(prop_oneof![Just(0u32), Just(0u32), 1u32..20], n).prop_map(move |v| v.into_iter().map(|k| enc(k as f64)).collect::<Vec<_>>()),
+        // weights with full mantissas (products w*x are not exact)
+        2 => proptest::collection::vec(any::<u32>(), n).prop_map(move |v| v.into_iter().map(|m| enc(0.1 + 9.9 * (m as f64 / u32::MAX as f64))).collect::<Vec<_>>()),
     ]
     .boxed()
 }
@@ -728,7 +730,19 @@ pub fn sumcase_strategy(float_only: bool, max_n: usize) -> impl Strategy<Value =
                 0u16..=8,
             )
         })
-        .prop_map(|((ty, shape, axis, layout_d, layout_w), data, weights, w_axis, neg_mask, w_axis_step, w_axis_rev, ddof, order)| SumCase {
+        .prop_map(|((ty, shape, axis, layout_d, layout_w), mut data, mut weights, mut w_axis, neg_mask, w_axis_step, w_axis_rev, ddof, order)| {
+            // one case in eight: the first element of every lane is an outlier carrying zero weight
+            if matches!(ty, NTy::F64 | NTy::F32) && order % 8 == 3 && shape[axis] >= 3 {
+                let f32_ = ty == NTy::F32;
+                let zero = if f32_ { f32_abs(0.0) } else { f64_abs(0.0) };
+                for lane in lane_indexes(&shape, axis) {
+                    let i = lane[0];
+                    data[i] = if f32_ { f32_abs(abs_f32(data[i]) * 4096.0 + 3.0e4) } else { f64_abs(abs_f64(data[i]) * 1048576.0 + 1.0e9) };
+                    weights[i] = zero;
+                }
+                w_axis[0] = zero;
+            }
+            SumCase {
             ty,
             shape,
             layout_d,
@@ -742,7 +756,7 @@ pub fn sumcase_strategy(float_only: bool, max_n: usize) -> impl Strategy<Value =
             w_axis_rev,
             ddof: ddof.to_bits(),
             order,
-        })
+        }})
 }
 
 pub fn run_c06(ctx: &Ctx) {
